@@ -100,21 +100,27 @@ Definition fa_ins := ins_resume (cl_resume tie_fuel)
                                 (rel_decide 0%Z (pos_of_t 0%Z [0%Z; 5%Z]) (fun _ => KLocatable) (fun _ => 0%Z)
                                             (rview_t fa_tbl) (rmk_t Z.eqb fa_tbl) (fun _ => true)).
 
+Definition is_none {A} (o : option A) : bool := match o with None => true | Some _ => false end.
+
+(* the position query is out ([Send None]); the RunEngine throws an error at it; the plan yields the same message
+   object again: it leaves (message 0 = set(m0, +1)) with no position recorded, rewrite_pos leaves it unchanged --
+   an absolute move instead of a relative one -- and the step is in the finding class *)
 Theorem C24_a_refuted :
-  (forall v, In v fa_tbl -> rview_t fa_tbl (rmk_t Z.eqb fa_tbl v) = v) /\
-  exists x x',
-    after fa_ins (IStart (cl_init fa_plan) []) [Send VNone] = Some x /\
-    (* the position query is out; the RunEngine throws an error at it; the plan yields the same message again *)
-    fa_ins x (Throw (EUser 0)) = Yielded 0 x' /\
-    rview_t fa_tbl 0 = RSet 0 1%Z 1 /\
-    ps_get 0 (ins_store x' Close) = None /\                        (* ... which leaves with no position recorded *)
-    rewrite_pos Z.add (rview_t fa_tbl) x' 0 = None /\              (* ... unchanged: absolute instead of relative *)
-    c24a_step (cl_resume tie_fuel) (rview_t fa_tbl) (fun _ => true) x (Throw (EUser 0)) = true.
-Proof.
-  split.
-  - intros v [<-|[<-|[]]]; reflexivity.
-  - eexists. eexists. vm_compute. repeat split; reflexivity.
-Qed.
+  forallb (fun v => rview_eqb Z.eqb (rview_t fa_tbl (rmk_t Z.eqb fa_tbl v)) v) fa_tbl = true /\
+  (match after fa_ins (IStart (cl_init fa_plan) []) [Send VNone] with
+   | Some x =>
+       match fa_ins x (Throw (EUser 0)) with
+       | Yielded m x' =>
+           Nat.eqb m 0
+           && rview_eqb Z.eqb (rview_t fa_tbl m) (RSet 0 1%Z 1)
+           && is_none (ps_get 0 (ins_store x' Close))
+           && is_none (rewrite_pos Z.add (rview_t fa_tbl) x' m)
+           && c24a_step (cl_resume tie_fuel) (rview_t fa_tbl) (fun _ => true) x (Throw (EUser 0))
+       | _ => false
+       end
+   | None => false
+   end) = true.
+Proof. vm_compute. split; reflexivity. Qed.
 
 (* ------------------------------------------------------------------ non-vacuity *)
 Definition nv_tbl : list (rview Z) :=
